@@ -500,3 +500,13 @@ Theorem sized_iff_pinned :
   forall r s, root_fresh s -> forall teq m, generate r s teq = Ok m ->
   (by_value_acyclicb r s = true <-> forall n p, ~ walk (item_edge s m) n p p).
 Proof. exact sized_iff. Qed.
+
+(** the hypothesis of [C02_sized_partial] implies the boolean on every registry that generates:
+    [C02_sized] covers every case [C02_sized_partial] covers *)
+Theorem ranked_implies_boolean :
+  forall r s rank, root_fresh s -> bv_ranked r s rank ->
+  forall teq m, generate r s teq = Ok m -> by_value_acyclicb r s = true.
+Proof.
+  intros r s rank Hf Hr teq m Hg. apply (sized_iff r s Hf teq m Hg).
+  exact (sized_acyclic r s rank Hf Hr teq m Hg).
+Qed.
